@@ -231,8 +231,8 @@ struct Check {
 
 void Body(Tape& t, Outcome& o) {
   auto& d = o.desc;
-  static PolygonTriangulator reused;  // persists across cases on purpose: reuse between calls
-  int calls = t.range(1, 3);
+  PolygonTriangulator reused;  // shared by the calls of this case only, so a case replays on its own
+  int calls = t.range(1, 4);
   for (int call = 0; call < calls; ++call) {
     if (call) d << " | ";
     PolySet ps = GenPolys(t, d);
@@ -290,6 +290,10 @@ void Body(Tape& t, Outcome& o) {
       // reuse: the persistent triangulator must equal a fresh one, byte for byte
       HalfedgeTriangulation fresh = TriangulateIdxHalfedges(idx, eps, allowConvex);
       HalfedgeTriangulation again = TriangulateIdxHalfedges(idx, eps, allowConvex, reused);
+      if (fresh.epsilon != again.epsilon) {
+        o.fail("tri:reuse-epsilon", verif::fmt("a reused PolygonTriangulator worked with epsilon %.17g, a fresh one with %.17g", again.epsilon, fresh.epsilon));
+        return;
+      }
       auto a = fresh.Triangles(), b = again.Triangles();
       if (a.size() != b.size() || (a.size() && memcmp(a.data(), b.data(), a.size() * sizeof(ivec3)) != 0)) {
         o.fail("tri:reuse", "a reused PolygonTriangulator returned different triangles than a fresh one");
@@ -310,7 +314,7 @@ void Body(Tape& t, Outcome& o) {
 
 int main(int argc, char** argv) {
   verif::Config cfg{"C10", "triangulate",
-                    "constructively epsilon-valid polygon sets: jittered stars, concentric nesting to depth 3 (hole inside inscribed disc), several disjoint families, x-monotone combs (real and lattice), rectilinear histograms, outer with several holes; decorations: collinear midpoints, duplicates displaced <eps/4, scale 10^[-6,6], translation, explicit eps or -1, remapped indices; 1-3 calls per case sharing one persistent PolygonTriangulator; non-trivial = has a hole, or a reflex vertex and >=8 vertices; distinct = hash of tape",
+                    "constructively epsilon-valid polygon sets: jittered stars, concentric nesting to depth 3 (hole inside inscribed disc), several disjoint families, x-monotone combs (real and lattice), rectilinear histograms, outer with several holes; decorations: collinear midpoints, duplicates displaced <eps/4, scale 10^[-6,6], translation, explicit eps or -1, remapped indices; 1-4 calls per case (independent scales) sharing one PolygonTriangulator, compared with fresh ones incl. the effective epsilon; non-trivial = has a hole, or a reflex vertex and >=8 vertices; distinct = hash of tape",
                     16};
   return verif::run_main(argc, argv, cfg, Body);
 }
